@@ -229,12 +229,15 @@ impl<R: Read + Seek> WdtReader<R> {
                             has_main = true;
                         }
                         b"DIAM" => {
+                            self.check_chunk_size(size)?;
                             wdt.maid = Some(MaidChunk::read(&mut self.reader, size)?);
                         }
                         b"OMWM" => {
+                            self.check_chunk_size(size)?;
                             wdt.mwmo = Some(MwmoChunk::read(&mut self.reader, size)?);
                         }
                         b"FDOM" => {
+                            self.check_chunk_size(size)?;
                             wdt.modf = Some(ModfChunk::read(&mut self.reader, size)?);
                         }
                         _ => {
@@ -342,6 +345,22 @@ impl<R: Read + Seek> WdtReader<R> {
         let size = u32::from_le_bytes(buf) as usize;
 
         Ok((magic, size))
+    }
+
+    /// Refuse a variable-sized chunk that claims more data than the stream has left,
+    /// before its reader allocates storage for it
+    fn check_chunk_size(&mut self, size: usize) -> Result<()> {
+        let pos = self.reader.stream_position()?;
+        let end = self.reader.seek(SeekFrom::End(0))?;
+        self.reader.seek(SeekFrom::Start(pos))?;
+
+        if size as u64 > end.saturating_sub(pos) {
+            return Err(Error::Io(std::io::Error::new(
+                std::io::ErrorKind::UnexpectedEof,
+                format!("chunk size {size} exceeds remaining data"),
+            )));
+        }
+        Ok(())
     }
 }
 
